@@ -143,9 +143,10 @@ def r2(fx):
                      want='for b in segment_data')
             need(okh, 'byte loop shape')
         else:
-            b = pat.need(loop.iter, 'range(0, segment_length, H_s)', f'{mode} loop header')
+            b = pat.need(loop.iter, 'range(0, H_l, H_s)', f'{mode} loop header')
             sv = ev.ev(b['s'], genv)
-            yield ob(f'{mode}: stride = group size {group}', sv == group, loop, got=ast.unparse(loop.iter), want=f'range(0, segment_length, {group})')
+            bound_ok = nf.norm(nf.inline(fn, b['l'])) in (nf.norm(ast.parse('segment_length', mode='eval').body), nf.norm(ast.parse('len(segment_data)', mode='eval').body))
+            yield ob(f'{mode}: stride = group size {group}, over the whole content', sv == group and bound_ok, loop, got=ast.unparse(loop.iter), want=f'range(0, segment_length, {group})')
 
         def run(data, i=0, mode=mode):
             buf = BufModel()
@@ -212,23 +213,24 @@ def r2(fx):
     okc = all(vals[m] == (5 if m in ('kanji', 'hanzi') else 10) for m in vals)
     yield ob('char_count = bytes (numeric, alphanumeric, byte) / byte pairs (kanji, hanzi)', okc, cc, got=vals,
              want='10 bytes -> 10, 10, 10, 5, 5')
-    # Buffer.append_bits MSB first, toints groups 8 MSB first
+    # Buffer (the real class, interpreted): append_bits writes MSB first, toints groups 8 bits MSB first with zero fill
+    from ..interp import Instance
     ab = fx.fn('encoder', 'Buffer.append_bits')
-    st = single([s for s in ab.body if isinstance(s, ast.Expr)], 'statement of Buffer.append_bits')
-    b = pat.need(st.value, 'self._data.extend(H_g)', 'Buffer.append_bits')
-    okb = all(list(ev.ev(b['g'], {'val': v, 'length': ln})) == [(v >> (ln - 1 - k)) & 1 for k in range(ln)]
-              for v, ln in ((0b1011, 4), (5, 8), (0x1ABC, 13), (1, 1)))
-    yield ob('Buffer.append_bits writes `length` bits MSB first', okb, ab, got=ast.unparse(b['g']), want='((val >> i) & 1 for i in reversed(range(length)))')
+    bad = []
+    for v, ln in ((0b1011, 4), (5, 8), (0x1ABC, 13), (1, 1), (0, 3), (0xFF, 8)):
+        bf = Instance.new(fx.forest, 'encoder', 'Buffer', genv, it)
+        bf.extend([1, 0])
+        bf.append_bits(v, ln)
+        got_bits = [int(x) for x in bf.getbits()]
+        if got_bits != [1, 0] + [(v >> (ln - 1 - k)) & 1 for k in range(ln)] or len(bf) != ln + 2:
+            bad.append((v, ln, got_bits))
+    yield ob('Buffer.append_bits writes `length` bits MSB first', not bad, ab, got=bad[:2] or 'MSB first', want='((val >> i) & 1 for i in reversed(range(length)))')
     ti = fx.fn('encoder', 'Buffer.toints')
-    r = single([s for s in ti.body if isinstance(s, ast.Return)], 'return of toints')
-    bits = [1, 0, 1, 0, 0, 1, 0, 1, 1, 1]
-
-    class Self:
-        _model = ('_data',)
-        _data = bits
-    e = dict(genv, self=Self(), map=lambda f, x: [f(y) for y in x])
-    vals = list(ev.ev(r.value, e))
-    yield ob('Buffer.toints groups 8 bits MSB first, zero fill', vals == [0xA5, 0xC0], ti, got=vals, want=[0xA5, 0xC0])
+    bf = Instance.new(fx.forest, 'encoder', 'Buffer', genv, it, [1, 0, 1, 0, 0, 1, 0, 1, 1, 1])
+    vals = [int(x) for x in bf.toints()]
+    bf2 = Instance.new(fx.forest, 'encoder', 'Buffer', genv, it, [0, 0, 0, 0, 1, 1, 1, 1] * 3)
+    vals2 = [int(x) for x in bf2.toints()]
+    yield ob('Buffer.toints groups 8 bits MSB first, zero fill', vals == [0xA5, 0xC0] and vals2 == [0x0F] * 3, ti, got=(vals, vals2), want=([0xA5, 0xC0], [0x0F] * 3))
     seg = single([s for s in fn.body if isinstance(s, ast.Return)], 'return of make_segment')
     bb = pat.need(seg.value, '_Segment(buff.getbits(), char_count, segment_mode, segment_encoding)', 'make_segment result')
     yield ob('segment = (bits written, char_count, mode, encoding)', bb is not None, seg, got=ast.unparse(seg.value), want='_Segment(...)')
